@@ -731,7 +731,7 @@ Section Master.
                      end
         | None => None
         end
-    | Some (FIndex i) =>
+    | Some (FIndex i _) =>
         match elem_of v i with
         | Some fv => match tail_val c (fst fp) fv with
                      | Some cv => frontier c u (snd fp) cv
@@ -762,7 +762,7 @@ Section Master.
       assert (Hidx : match root_field_name ops with Some f => field_name_index_ok f | None => false end = true).
       { unfold ops_ok in Hops. apply andb_prop in Hops as [H _]. exact H. }
       destruct (root_field_name ops) as [f|] eqn:Er; [|discriminate]. rewrite Hidx.
-      destruct f as [fs fsp|fi].
+      destruct f as [fs fsp|fi fisp].
       + destruct (field_of v fs) as [fv|] eqn:Ea; [|discriminate].
         destruct (tail_val (e_caller en) ops fv) as [cv|] eqn:Et; [|discriminate].
         assert (Hev : eval en (VField e (FIdent fs fsp)) = Some (fv, t)) by (cbn; rewrite He, Ea; reflexivity).
@@ -770,7 +770,7 @@ Section Master.
         rewrite H1. cbn. eexists; reflexivity.
       + destruct (elem_of v fi) as [fv|] eqn:Ea; [|discriminate].
         destruct (tail_val (e_caller en) ops fv) as [cv|] eqn:Et; [|discriminate].
-        assert (Hev : eval en (VField e (FIndex fi)) = Some (fv, t)) by (cbn; rewrite He, Ea; reflexivity).
+        assert (Hev : eval en (VField e (FIndex fi fisp)) = Some (fv, t)) by (cbn; rewrite He, Ea; reflexivity).
         destruct (with_tail_place en ops _ fv t fpat cv f1 Hops Hev Et Hfp Hpat E1) as (tr1 & H1).
         rewrite H1. cbn. eexists; reflexivity.
   Qed.
